@@ -2,7 +2,7 @@ from pyvc.api import Registry
 
 
 def build_registry():
-    from . import sort_c, conversion_c, view_c, gfa_c
+    from . import sort_c, conversion_c, view_c, gfa_c, index_c
     reg = Registry()
     sort_c.register(reg)
     conversion_c.register(reg)
@@ -11,4 +11,5 @@ def build_registry():
     sort_c.register_process_alignment(reg)
     view_c.register(reg)
     gfa_c.register(reg)
+    index_c.register(reg)
     return reg
